@@ -6,7 +6,7 @@ From Coq Require Import ZArith NArith List String Bool.
 From CB Require Import Crypto.Alg Crypto.AlgPairing Crypto.Transcript Crypto.TranscriptProofs Crypto.SigmaGeneric Crypto.SigmaCodec
   Crypto.Sigma_dlog Crypto.Sigma_dlogeq Crypto.Sigma_com_eq Crypto.Sigma_com_enc_eq Crypto.Sigma_com_mult
   Crypto.Sigma_aggregate_dlog Crypto.Sigma_enc_trans Crypto.Sigma_com_lin Crypto.Sigma_com_eq_diff Crypto.Sigma_com_ineq Crypto.Sigma_vcom_eq Crypto.Sigma_com_eq_sig Crypto.Sigma_dlogaggequal Crypto.Sigma_ps_sig_known
-  Crypto.SigmaExec.
+  Crypto.SigmaExec Crypto.SigmaExecDae Crypto.SigmaDaeObs Crypto.SigmaHom Crypto.SigmaAdaptersN Crypto.SigmaSS_ps_sig Crypto.SigmaSS_vcom_eq Crypto.AlgF2 Crypto.SigmaNonvac.
 Import ListNotations.
 
 (** * Generic algebra *)
@@ -412,3 +412,300 @@ Example nonvacuous_special_soundness :
   /\ 7%Z <> 2%Z /\ m_extract (K:=ZrF) RespMinus 7%Z 2%Z [79%Z] [94%Z] = [3%Z].
 Proof. split; [vm_compute; reflexivity|]. split; [discriminate|vm_compute; reflexivity]. Qed.
 Print Assumptions nonvacuous_special_soundness.
+
+(** * Round 4: special soundness of vcom_eq and ps_sig_known, response injectivity, compositions of any size *)
+Section Round4Vcom.
+  Context (K : FieldOps) (KL : FieldLaws K) (M : ModOps K) (ML : ModLaws M) (Cd : CodecOps M).
+  (** two accepting transcripts (one commit message, different challenges) of vcom_eq.rs yield, by the
+      explicit extractor, a witness for the SAME relation [vcom_rel] as in [vcom_eq_complete]:
+      C = sum x_i*g_i + r*h, every individual commitment C_i = x_i*g_bar + r_i*h_bar, key sets equal *)
+  Theorem vcom_eq_special_sound : special_sound (vcom_proto Cd) (vcom_rel (M:=M)) vcom_extractor.
+  Proof. exact (vcom_special_sound_ Cd). Qed.
+  Theorem vcom_eq_response_injective : forall (s : vcom_stmt M) (c : K) sis t tis sis' t' tis' cm,
+    (forall (u v : list K) (x y : K), List.length u = List.length (vc_gis s) -> List.length v = List.length (vc_gis s) ->
+       Gadd M (msm u (vc_gis s)) (smul M x (vc_h s)) = Gadd M (msm v (vc_gis s)) (smul M y (vc_h s)) -> u = v /\ x = y) ->
+    (forall x y x' y' : K, Gadd M (smul M x (vc_gbar s)) (smul M y (vc_hbar s)) =
+                           Gadd M (smul M x' (vc_gbar s)) (smul M y' (vc_hbar s)) -> x = x' /\ y = y') ->
+    vcom_extract s c (sis, t, tis) = Some cm -> vcom_extract s c (sis', t', tis') = Some cm ->
+    sis = sis' /\ t = t' /\ forall k, aget tis k = aget tis' k.
+  Proof. exact vcom_response_injective_. Qed.
+End Round4Vcom.
+Print Assumptions vcom_eq_special_sound.
+Print Assumptions vcom_eq_response_injective.
+
+Section Round4Pairing.
+  Context (K : FieldOps) (KL : FieldLaws K) (P : PairOps K) (PL : PairLaws P) (MC : ModOps K) (MLC : ModLaws MC)
+          (Cd1 : CodecOps (PM1 P)) (Cd2 : CodecOps (PM2 P)) (CdT : CodecOps (PMT P)) (CdC : CodecOps MC).
+  (** ps_sig_known.rs: the extracted values satisfy [pss_rel] (the relation of [ps_sig_known_complete]):
+      C_i = m_i*g + r_i*h for the committed messages and e(b,g~) = e(a, X~ + sum_i m_i*Y~_i + r'*g~) *)
+  Theorem ps_sig_known_special_sound :
+    special_sound (pss_proto Cd1 Cd2 CdT CdC) (pss_rel (P:=P) (MC:=MC)) pss_extractor.
+  Proof. exact (pss_special_sound_ Cd1 Cd2 CdT CdC). Qed.
+  (** com_eq_sig.rs: everything of [ces_rel] except the prover-side bound [|commitments| <= |ys|] follows
+      unconditionally; with the bound, [ces_rel] *)
+  Theorem com_eq_sig_special_sound_unconditional : forall (s : ces_stmt P MC) a c c' z z', c <> c' ->
+    ces_extract s c z = Some a -> ces_extract s c' z' = Some a ->
+    let w := ces_extractor s c c' z z' in
+    List.length (snd w) = List.length (cs_cmts s) /\ (List.length (cs_cmts s) <= List.length (cs_yts s))%nat /\
+    cs_cmts s = map (fun v => Gadd MC (smul MC (fst v) (cs_g s)) (smul MC (snd v) (cs_h s))) (snd w) /\
+    pe P (cs_b s) (cs_gt s) =
+      pe P (cs_a s) (Gadd (PM2 P) (cs_xt s) (Gadd (PM2 P) (msm (map fst (snd w)) (cs_yts s)) (smul (PM2 P) (fst w) (cs_gt s)))) /\
+    ((List.length (cs_cmts s) <= List.length (cs_ys s))%nat -> ces_rel s w).
+  Proof. exact (ces_special_sound_key_length_ Cd1 Cd2 CdT CdC). Qed.
+  Theorem com_eq_sig_response_injective : forall (s : ces_stmt P MC) (c : K) (z z' : ces_wit) cm,
+    (forall x y x' y' : K, Gadd MC (smul MC x (cs_g s)) (smul MC y (cs_h s)) =
+                           Gadd MC (smul MC x' (cs_g s)) (smul MC y' (cs_h s)) -> x = x' /\ y = y') ->
+    (forall x x' : K, smul (PMT P) x (pe P (cs_a s) (cs_gt s)) = smul (PMT P) x' (pe P (cs_a s) (cs_gt s)) -> x = x') ->
+    ces_extract s c z = Some cm -> ces_extract s c z' = Some cm -> z = z'.
+  Proof. exact ces_response_injective_. Qed.
+End Round4Pairing.
+Print Assumptions ps_sig_known_special_sound.
+Print Assumptions com_eq_sig_special_sound_unconditional.
+Print Assumptions com_eq_sig_response_injective.
+
+(** compositions of ANY size.  [rep_core] = the three functions of [ReplicateAdapter] exactly as coded
+    (total, also for zero protocols); [rep_proto] = guarded by the non-emptiness precondition of
+    [get_challenge] *)
+Theorem replicate_core_complete : forall (K : FieldOps) (P : proto K) rel rok,
+  complete P rel rok -> complete (rep_core P) (Forall2 rel) (Forall2 rok).
+Proof. exact @rep_core_complete_. Qed.
+Print Assumptions replicate_core_complete.
+Theorem replicate_core_special_sound : forall (K : FieldOps) (P : proto K) rel ex,
+  special_sound P rel ex -> special_sound (rep_core P) (Forall2 rel) (rep_extractor P ex).
+Proof. exact @rep_core_special_sound_. Qed.
+Print Assumptions replicate_core_special_sound.
+Theorem replicate_special_sound : forall (K : FieldOps) (P : proto K) rel ex,
+  special_sound P rel ex -> special_sound (rep_proto P) (rep_rel rel) (rep_extractor P ex).
+Proof. exact @rep_special_sound_. Qed.
+Print Assumptions replicate_special_sound.
+Theorem replicate_core_statement_binding_v1 : forall (K : FieldOps) (H : bytes -> bytes) (sfb : bytes -> K) (P : proto K) ok,
+  public_prefix_free P V1 ok ->
+  forall ctx ss ss' pi,
+    (N.of_nat (List.length ss) < W64)%N -> Forall ok ss -> (N.of_nat (List.length ss') < W64)%N -> Forall ok ss' ->
+    ss <> ss' ->
+    fst (verify H sfb (rep_core P) V1 ctx ss pi) = true -> fst (verify H sfb (rep_core P) V1 ctx ss' pi) = true ->
+    exists x x', x <> x' /\ H x = H x'.
+Proof. exact @rep_statement_binding_v1_. Qed.
+Print Assumptions replicate_core_statement_binding_v1.
+Theorem replicate_statement_binding_v1 : forall (K : FieldOps) (H : bytes -> bytes) (sfb : bytes -> K) (P : proto K) ok,
+  public_prefix_free P V1 ok ->
+  forall ctx ss ss' pi,
+    (N.of_nat (List.length ss) < W64)%N -> Forall ok ss -> (N.of_nat (List.length ss') < W64)%N -> Forall ok ss' ->
+    ss <> ss' ->
+    fst (verify H sfb (rep_proto P) V1 ctx ss pi) = true -> fst (verify H sfb (rep_proto P) V1 ctx ss' pi) = true ->
+    exists x x', x <> x' /\ H x = H x'.
+Proof. exact @rep_proto_statement_binding_v1_. Qed.
+Print Assumptions replicate_statement_binding_v1.
+Theorem replicate_zero_instances : forall (K : FieldOps) (P : proto K) c zs,
+  (p_extract (rep_core P) [] c zs = Some [] <-> zs = []) /\
+  (forall a, p_extract (rep_core P) [] c zs = Some a -> a = [] /\ zs = []) /\
+  p_extract (rep_proto P) [] c zs = None /\
+  p_commit (rep_core P) [] [] = Some [] /\ p_respond (rep_core P) [] [] [] c = Some [].
+Proof. exact @rep_zero_instances_. Qed.
+Print Assumptions replicate_zero_instances.
+(** [first.add_prover(p1)...add_prover(pn)] for any n >= 0 *)
+Theorem and_any_number_is_nested_adapter : forall (K : FieldOps) (Bs : list (@cproto K)) (A : @cproto K),
+  cp (and_all A Bs) = fold_left and_proto (map cp Bs) (cp A).
+Proof. exact @and_all_is_nested_adapter_. Qed.
+Print Assumptions and_any_number_is_nested_adapter.
+Theorem and_any_number_certified : forall (K : FieldOps) (A : @cproto K) (Bs : list (@cproto K)),
+  let C := and_all A Bs in
+  complete (cp C) (cp_rel C) (cp_rok C) /\ special_sound (cp C) (cp_rel C) (cp_ex C) /\
+  (forall k, public_prefix_free (cp C) k (cp_ok C)) /\
+  forall (H : bytes -> bytes) (sfb : bytes -> K) k ctx s s' pi, cp_ok C s -> cp_ok C s' -> s <> s' ->
+    fst (verify H sfb (cp C) k ctx s pi) = true -> fst (verify H sfb (cp C) k ctx s' pi) = true ->
+    exists x x', x <> x' /\ H x = H x'.
+Proof. exact @and_all_certified_. Qed.
+Print Assumptions and_any_number_certified.
+Theorem and_shared_challenge : forall (K : FieldOps) (P1 P2 : proto K) s c z a,
+  p_extract (and_proto P1 P2) s c z = Some a <->
+  p_extract P1 (fst s) c (fst z) = Some (fst a) /\ p_extract P2 (snd s) c (snd z) = Some (snd a).
+Proof. exact @and_extract_shared_challenge_. Qed.
+Print Assumptions and_shared_challenge.
+Theorem and_framing_concatenates : forall (K : FieldOps) (P1 P2 : proto K) k s a z,
+  p_public (and_proto P1 P2) k s = p_public P1 k (fst s) ++ p_public P2 k (snd s) /\
+  p_ser_cm (and_proto P1 P2) a = p_ser_cm P1 (fst a) ++ p_ser_cm P2 (snd a) /\
+  p_ser_resp (and_proto P1 P2) z = p_ser_resp P1 (fst z) ++ p_ser_resp P2 (snd z).
+Proof. exact @and_framing_concatenates_. Qed.
+Print Assumptions and_framing_concatenates.
+
+(** * Round 4 non-vacuity (Z mod r "in the exponent"; F2 x F2 for the independence hypotheses) *)
+(** vcom_eq: gis = [2;3], h = 5, g_bar = 7, h_bar = 11, x = [4;6], r = 9, one individual commitment at index 0 (r_0 = 13).
+    Two honest responses (challenges 7 and 2, same randomness) reconstruct the same commit message, and the extractor
+    returns the witness. *)
+Example nonvacuous_vcom_eq_special_soundness :
+  let s := @mkVcom ZrF ZrG 71%Z [(0%N, 171%Z)] [2; 3]%Z 5%Z 7%Z 11%Z in
+  let w : vc_wit (K:=ZrF) := ([4; 6]%Z, 9%Z, [(0%N, 13%Z)]) in
+  let r : vc_wit (K:=ZrF) := ([10; 20]%Z, 30%Z, [(0%N, 40%Z)]) in
+  match vcom_respond s w r 7%Z, vcom_respond s w r 2%Z with
+  | Some z, Some z' =>
+    vcom_extract s 7%Z z = vcom_commit s r /\ vcom_extract s 2%Z z' = vcom_commit s r /\ vcom_commit s r <> None /\
+    vcom_extractor s 7%Z 2%Z z z' = w
+  | _, _ => False
+  end.
+Proof. vm_compute. repeat split; try reflexivity. discriminate. Qed.
+Print Assumptions nonvacuous_vcom_eq_special_soundness.
+(** attack corpus (model side): a response that satisfies every equation but ONE is rejected - altering t_0 changes
+    only the reconstructed point of the individual commitment 0, altering t only the vector-commitment point, and
+    dropping the answer for commitment 0 (or keying it 1) makes the verifier return None *)
+Example vcom_eq_all_but_one_equation_rejected :
+  let s := @mkVcom ZrF ZrG 71%Z [(0%N, 171%Z)] [2; 3]%Z 5%Z 7%Z 11%Z in
+  let w : vc_wit (K:=ZrF) := ([4; 6]%Z, 9%Z, [(0%N, 13%Z)]) in
+  let r : vc_wit (K:=ZrF) := ([10; 20]%Z, 30%Z, [(0%N, 40%Z)]) in
+  match vcom_respond s w r 7%Z, vcom_commit s r with
+  | Some (sis, t, tis), Some (a, pts) =>
+    vcom_extract s 7%Z (sis, t, tis) = Some (a, pts) /\
+    (exists p', vcom_extract s 7%Z (sis, t, [(0%N, (snd (hd (0%N, 0%Z) tis) + 1)%Z)]) = Some (a, [p']) /\ [p'] <> pts) /\
+    (exists a', vcom_extract s 7%Z (sis, (t + 1)%Z, tis) = Some (a', pts) /\ a' <> a) /\
+    vcom_extract s 7%Z (sis, t, []) = None /\
+    vcom_extract s 7%Z (sis, t, [(1%N, snd (hd (0%N, 0%Z) tis))]) = None
+  | _, _ => False
+  end.
+Proof.
+  vm_compute. split; [reflexivity|]. split; [eexists; split; [reflexivity|discriminate]|].
+  split; [eexists; split; [reflexivity|discriminate]|]. split; reflexivity.
+Qed.
+Print Assumptions vcom_eq_all_but_one_equation_rejected.
+(** ps_sig_known: messages [committed 4 (r = 6); public 5; known 8], Y~ = [3;5;7], X~ = 11, r' = 13, a = 2, g~ = 1,
+    b = a*(X~ + 93 + r'), commitment key (17, 19) *)
+Example nonvacuous_ps_sig_known_special_soundness :
+  let s := @mkPss ZrF ZrPair ZrG 2%Z 234%Z [MEq 182%Z; MPub 5%Z; MKnown] 1%Z 1%Z [1; 1; 1]%Z [3; 5; 7]%Z 11%Z 17%Z 19%Z in
+  let w : pss_wit (K:=ZrF) := (13%Z, [VEq 4%Z 6%Z; VPub; VKnown 8%Z]) in
+  let r : pss_wit (K:=ZrF) := (21%Z, [VEq 22%Z 23%Z; VPub; VKnown 24%Z]) in
+  match pss_respond s w r 7%Z, pss_respond s w r 2%Z with
+  | Some z, Some z' =>
+    pss_extract s 7%Z z = pss_commit s r /\ pss_extract s 2%Z z' = pss_commit s r /\ pss_commit s r <> None /\
+    pss_extractor s 7%Z 2%Z z z' = w
+  | _, _ => False
+  end.
+Proof. vm_compute. repeat split; try reflexivity. discriminate. Qed.
+Print Assumptions nonvacuous_ps_sig_known_special_soundness.
+(** attack corpus (model side): altering the randomness response of the committed message changes ONLY that
+    commitment's point (the pairing equation still holds) - rejected; altering the response of the known message
+    changes ONLY the pairing value - rejected *)
+Example ps_sig_known_all_but_one_equation_rejected :
+  let s := @mkPss ZrF ZrPair ZrG 2%Z 234%Z [MEq 182%Z; MPub 5%Z; MKnown] 1%Z 1%Z [1; 1; 1]%Z [3; 5; 7]%Z 11%Z 17%Z 19%Z in
+  let w : pss_wit (K:=ZrF) := (13%Z, [VEq 4%Z 6%Z; VPub; VKnown 8%Z]) in
+  let r : pss_wit (K:=ZrF) := (21%Z, [VEq 22%Z 23%Z; VPub; VKnown 24%Z]) in
+  match pss_respond s w r 7%Z, pss_commit s r with
+  | Some (zr, [VEq zm zrr; VPub; VKnown zk]), Some (a, cs) =>
+    pss_extract s 7%Z (zr, [VEq zm zrr; VPub; VKnown zk]) = Some (a, cs) /\
+    (exists cs', pss_extract s 7%Z (zr, [VEq zm (zrr + 1)%Z; VPub; VKnown zk]) = Some (a, cs') /\ cs' <> cs) /\
+    (exists a', pss_extract s 7%Z (zr, [VEq zm zrr; VPub; VKnown (zk + 1)%Z]) = Some (a', cs) /\ a' <> a) /\
+    pss_extract s 7%Z (zr, [VEq zm zrr; VPub]) = None
+  | _, _ => False
+  end.
+Proof.
+  vm_compute. split; [reflexivity|]. split; [eexists; split; [reflexivity|discriminate]|].
+  split; [eexists; split; [reflexivity|discriminate]|]. reflexivity.
+Qed.
+Print Assumptions ps_sig_known_all_but_one_equation_rejected.
+(** com_eq_sig: the same with two committed messages; and the injectivity hypotheses are satisfiable (F2 x F2) *)
+Example com_eq_sig_all_but_one_equation_rejected :
+  let s := @mkCes ZrF ZrPair ZrG 2%Z 152%Z [182; 307]%Z 1%Z 1%Z [1; 1]%Z [3; 5]%Z 11%Z 17%Z 19%Z in
+  let w : ces_wit (K:=ZrF) := (13%Z, [(4, 6); (8, 9)]%Z) in
+  let r : ces_wit (K:=ZrF) := (21%Z, [(22, 23); (24, 25)]%Z) in
+  match ces_respond s w r 7%Z, ces_commit s r with
+  | Some (zr, [(m1, r1); (m2, r2)]), Some (a, cs) =>
+    ces_extract s 7%Z (zr, [(m1, r1); (m2, r2)]) = Some (a, cs) /\
+    (exists cs', ces_extract s 7%Z (zr, [(m1, r1); (m2, (r2 + 1)%Z)]) = Some (a, cs') /\ cs' <> cs /\ hd 0%Z cs' = hd 0%Z cs) /\
+    (exists a', ces_extract s 7%Z ((zr + 1)%Z, [(m1, r1); (m2, r2)]) = Some (a', cs) /\ a' <> a) /\
+    ces_extract s 7%Z (zr, [(m1, r1)]) = None /\
+    ces_extractor s 7%Z 2%Z (zr, [(m1, r1); (m2, r2)])
+      (match ces_respond s w r 2%Z with Some z' => z' | None => (0%Z, []) end) = w
+  | _, _ => False
+  end.
+Proof.
+  vm_compute. split; [reflexivity|]. split; [eexists; split; [reflexivity|split; [discriminate|reflexivity]]|].
+  split; [eexists; split; [reflexivity|discriminate]|]. split; reflexivity.
+Qed.
+Print Assumptions com_eq_sig_all_but_one_equation_rejected.
+Example nonvacuous_com_eq_sig_response_injective :
+  let s := @mkCes F2 F2Pair F2M2 true true [(true, true)] true true [true] [true] true (true, false) (false, true) in
+  (forall x y x' y' : F2, Gadd F2M2 (smul F2M2 x (cs_g s)) (smul F2M2 y (cs_h s)) =
+                          Gadd F2M2 (smul F2M2 x' (cs_g s)) (smul F2M2 y' (cs_h s)) -> x = x' /\ y = y') /\
+  (forall x x' : F2, smul F2M x (pe F2Pair (cs_a s) (cs_gt s)) = smul F2M x' (pe F2Pair (cs_a s) (cs_gt s)) -> x = x') /\
+  ces_extract s true (true, [(true, false)]) <> None /\
+  ces_extract s true (true, [(true, false)]) <> ces_extract s true (true, [(true, true)]).
+Proof.
+  split; [exact F2M2_independent|]. split; [exact F2_unit_faithful|]. split; vm_compute; discriminate.
+Qed.
+Print Assumptions nonvacuous_com_eq_sig_response_injective.
+(** vcom_eq with one generator g = (1,0), h = (0,1) and key g_bar = (1,0), h_bar = (0,1) *)
+Example nonvacuous_vcom_eq_response_injective :
+  let s := @mkVcom F2 F2M2 (true, true) [(0%N, (true, true))] [(true, false)] (false, true) (true, false) (false, true) in
+  (forall (u v : list F2) (x y : F2), List.length u = List.length (vc_gis s) -> List.length v = List.length (vc_gis s) ->
+     Gadd F2M2 (msm u (vc_gis s)) (smul F2M2 x (vc_h s)) = Gadd F2M2 (msm v (vc_gis s)) (smul F2M2 y (vc_h s)) -> u = v /\ x = y) /\
+  (forall x y x' y' : F2, Gadd F2M2 (smul F2M2 x (vc_gbar s)) (smul F2M2 y (vc_hbar s)) =
+                          Gadd F2M2 (smul F2M2 x' (vc_gbar s)) (smul F2M2 y' (vc_hbar s)) -> x = x' /\ y = y') /\
+  vcom_extract s true ([true], false, [(0%N, true)]) <> None /\
+  vcom_extract s true ([true], false, [(0%N, true)]) <> vcom_extract s true ([true], false, [(0%N, false)]).
+Proof.
+  split.
+  { intros [|u [|? ?]] [|v [|? ?]] x y Lu Lv; try discriminate. cbn.
+    destruct u, v, x, y; cbn; intro E; split; try reflexivity; discriminate. }
+  split; [exact F2M2_independent|]. split; vm_compute; discriminate.
+Qed.
+Print Assumptions nonvacuous_vcom_eq_response_injective.
+(** replicate with two and with zero instances of dlog: two accepting transcripts exist and the extractor returns
+    the witnesses (3 and 4); zero instances: the empty proof, the empty witness list *)
+Example nonvacuous_replicate_special_soundness :
+  let P := dlog_proto ZrCodec in
+  let ss := [@mkDlog ZrF ZrG 15%Z 5%Z; @mkDlog ZrF ZrG 28%Z 7%Z] in
+  match p_respond (rep_core P) ss [3; 4]%Z [10; 20]%Z 7%Z, p_respond (rep_core P) ss [3; 4]%Z [10; 20]%Z 2%Z with
+  | Some z, Some z' =>
+    p_extract (rep_core P) ss 7%Z z = p_commit (rep_core P) ss [10; 20]%Z /\
+    p_extract (rep_core P) ss 2%Z z' = p_commit (rep_core P) ss [10; 20]%Z /\
+    p_commit (rep_core P) ss [10; 20]%Z <> None /\
+    p_extract (rep_proto P) ss 7%Z z = p_extract (rep_core P) ss 7%Z z /\
+    p_extract (rep_core P) [] 7%Z [] = Some []
+  | _, _ => False
+  end.
+Proof. vm_compute. repeat split; try reflexivity. discriminate. Qed.
+Print Assumptions nonvacuous_replicate_special_soundness.
+(** dlogaggequal (tied to the code through the cfg hook): an honest transcript with two aggregates (sizes 1 and 2) is
+    reproduced by the executable model; and the response-count observation on the same instance: the response without
+    the last inner vector is not rejected by [extract_commit_message] (it reconstructs one point fewer) *)
+Example nonvacuous_honest_dlogaggequal :
+  match x_honest X_dlogaggequal V1 (domain V1 [99; 48; 55]%N) [2; 15; 5; 21; 7; 50; 2; 11]%Z [2; 3; 4]%Z 7%Z [2; 100; 200]%Z with
+  | Some (cm_ok, resp_ok, rel_ok, _, _) => cm_ok && resp_ok && rel_ok = true
+  | None => False
+  end /\
+  x_verify_dae_trunc V1 [] [2; 15; 5; 21; 7; 50; 2; 11]%Z [1]%N 1 [200]%Z <> None.
+Proof. split; [vm_compute; reflexivity|vm_compute; discriminate]. Qed.
+Print Assumptions nonvacuous_honest_dlogaggequal.
+(** the one-row protocol for an abstract homomorphism [phi : W -> M] (any response type with a subtraction and a scaling
+    that [phi] respects): special soundness and response injectivity; the Pedersen row as coded in com_eq_sig.rs /
+    ps_sig_known.rs / vcom_eq.rs is the instance W = K*K, phi (x,y) = x*g + y*h *)
+Theorem hom_special_sound : forall (K : FieldOps) (KL : FieldLaws K) (M : ModOps K) (ML : ModLaws M)
+    (W : Type) (wsub : W -> W -> W) (wscale : K -> W -> W) (phi : W -> M),
+  (forall d z z', phi (wscale d (wsub z z')) = smul M d (Gsub M (phi z) (phi z'))) ->
+  forall (y : M) (c c' : K) (z z' : W), c <> c' ->
+  Gadd M (smul M c y) (phi z) = Gadd M (smul M c' y) (phi z') -> phi (wscale (Finv K (Fsub K c' c)) (wsub z z')) = y.
+Proof. intros K KL M ML. exact hom_special_sound_. Qed.
+Print Assumptions hom_special_sound.
+Theorem hom_response_injective : forall (K : FieldOps) (M : ModOps K) (ML : ModLaws M) (W : Type) (phi : W -> M)
+    (y : M) (c : K) (z z' : W),
+  (forall u v, phi u = phi v -> u = v) -> Gadd M (smul M c y) (phi z) = Gadd M (smul M c y) (phi z') -> z = z'.
+Proof. intros K M ML. exact hom_response_injective_. Qed.
+Print Assumptions hom_response_injective.
+Theorem pedersen_row_special_sound : forall (K : FieldOps) (KL : FieldLaws K) (M : ModOps K) (ML : ModLaws M) (g h : M)
+    (C : M) (c c' : K) (z z' : K * K), c <> c' ->
+  Gadd M (smul M c C) (Gadd M (smul M (fst z) g) (smul M (snd z) h)) =
+  Gadd M (smul M c' C) (Gadd M (smul M (fst z') g) (smul M (snd z') h)) ->
+  C = ped_phi g h (ped_scale (Finv K (Fsub K c' c)) (ped_sub z z')).
+Proof. intros K KL M ML. exact ped_row_special_sound_. Qed.
+Print Assumptions pedersen_row_special_sound.
+(** dlogaggequal.rs (private reference module): the number of inner response vectors is not compared with the number
+    of aggregates - in BOTH directions, for all statements (observed on the real code through the cfg hook: the
+    truncated-response attack and the surplus-vector perturbation are accepted; compared with this model by the check) *)
+Theorem dlogaggequal_surplus_responses_ignored_refuted : forall (K : FieldOps) (M : ModOps K)
+    (s : dae_stmt (M:=M)) (c zc : K) (ws extra : list (list K)),
+  List.length ws = List.length (snd s) -> dae_extract s c (zc, ws ++ extra) = dae_extract s c (zc, ws).
+Proof. exact @dae_extract_surplus_ignored_. Qed.
+Print Assumptions dlogaggequal_surplus_responses_ignored_refuted.
+Theorem dlogaggequal_missing_responses_unchecked_refuted : forall (K : FieldOps) (M : ModOps K)
+    (aggs more : list (agg_stmt M)) (c zc : K) (ws : list (list K)),
+  List.length ws = List.length aggs -> dae_points (aggs ++ more) c zc ws = dae_points aggs c zc ws.
+Proof. exact @dae_points_truncated_. Qed.
+Print Assumptions dlogaggequal_missing_responses_unchecked_refuted.
